@@ -98,6 +98,46 @@ Expected(stream, opt) ==
                                        LAMBDA ln : ln.runs # <<>>)]]
 
 ---------------------------------------------------------------------------
+(* Implementation layer: the control state of teletextPageBuffer, observed by the `verif` hook at the top of
+   parsePacket - one entry <<magazine, packet number, receiving, selected magazine, selected page>> per packet that
+   reaches the dispatcher, i.e. per subtitle data unit of the chosen PID with a good framing code and a decodable
+   address. CtlStep transcribes parsePacketHeader's handling of that state; TeletextMC checks that it agrees with
+   the normative decoder's (sel, recv) on every stream of the families except for the one deviation named below.
+   A data unit whose length runs past the payload ("overlong", "cut") ends the processing of its PES packet. *)
+Reaches(u) == u.k \in {"hdr", "row", "x26", "x28", "m29", "x30"}
+PktNo(u) == CASE u.k = "hdr" -> 0 [] u.k = "row" -> u.row [] u.k = "x26" -> 26 [] u.k = "x28" -> 28 [] u.k = "m29" -> 29 [] u.k = "x30" -> 30
+MagOf(u) == IF u.k = "x30" THEN 8 ELSE u.mag
+\* c = [mag, page, recv]: teletextPageBuffer.magazineNumber / pageNumber (two hexadecimal digits) / receiving
+CtlInit(page) == [mag |-> page \div 100, page |-> (16 * ((page % 100) \div 10)) + (page % 10), recv |-> FALSE]
+\* parsePacketHeader, transcribed. It differs from UnitStep in one place that no well-formed stream can show: in
+\* serial mode a header ends the page being received only when its page *number* differs - the header of the page
+\* with the same number in another magazine leaves `receiving` set (that magazine's rows are still discarded by
+\* parsePacket, and the next header of the selected page starts a new instance either way)
+CtlStep(c, u) ==
+  IF u.k # "hdr" \/ (u.pt = 15 /\ u.pu = 15) THEN c
+  ELSE LET pn == 16 * u.pt + u.pu
+           c1 == IF c.mag = 0 /\ c.page = 0 /\ u.sub THEN [c EXCEPT !.mag = u.mag, !.page = pn] ELSE c
+       IN  IF c1.recv /\ ((u.serial /\ pn # c1.page) \/ (~u.serial /\ pn # c1.page /\ u.mag = c1.mag)) THEN [c1 EXCEPT !.recv = FALSE]
+           ELSE IF pn # c1.page \/ u.mag # c1.mag THEN c1
+           ELSE [c1 EXCEPT !.recv = TRUE]
+Obs(c, u) == <<MagOf(u), PktNo(u), IF c.recv THEN 1 ELSE 0, c.mag, c.page>>
+RECURSIVE BeforeBreak(_)
+BeforeBreak(us) == IF us = <<>> \/ Head(us).k \in {"overlong", "cut"} THEN <<>> ELSE <<Head(us)>> \o BeforeBreak(Tail(us))
+RECURSIVE HookUnits(_, _)
+HookUnits(c, us) ==
+  IF us = <<>> THEN [c |-> c, h |-> <<>>]
+  ELSE LET reach == Reaches(Head(us))
+           r == HookUnits(IF reach THEN CtlStep(c, Head(us)) ELSE c, Tail(us))
+       IN  [c |-> r.c, h |-> (IF reach THEN <<Obs(c, Head(us))>> ELSE <<>>) \o r.h]
+RECURSIVE HookPes(_, _)
+HookPes(c, ps) ==
+  IF ps = <<>> THEN <<>>
+  ELSE LET r == HookUnits(c, BeforeBreak(Head(ps).units)) IN r.h \o HookPes(r.c, Tail(ps))
+ImplHooks(stream, opt) ==
+  LET ps == SelectSeq(stream.pes, LAMBDA p : p.pid = opt.pid /\ (p.pid # 1 \/ stream.twopids))
+  IN  IF ps = <<>> \/ opt.pid = 2 THEN <<>> ELSE HookPes(CtlInit(opt.page), ps)
+
+---------------------------------------------------------------------------
 (* what the library returned (post: sequence of [s, e, lines], line = sequence of runs [t, col, dh]) vs Expected *)
 RECURSIVE FlatSets(_)
 FlatSets(runs) == IF runs = <<>> THEN <<>> ELSE Head(runs).t \o FlatSets(Tail(runs))
